@@ -57,6 +57,9 @@ CLAIMED = {
     "C20": ("runtime monitoring: boundary recorder on every model function over the whole state x action (x observation) space of each generated domain instance, array builders and a ValueIteration planning probe; oracle = normalisation / closure / finiteness clauses and a reference of the plain grid-world physics",
             "Held-on-K-executions over generated layouts and parameter settings of the six built-in domains; each instance is checked exhaustively over its own state/action space. Exploration: layouts/parameters are sampled.",
             "coordinates x=column, y=height-1-row; layouts contain >=1 start cell; known finding C20-absorbing-cell-cuts-the-grid is mechanism-keyed", "§4 C20"),
+    "C13": ("runtime monitoring: RNG-state sentinel (hash of the global random / numpy / torch generator states before vs after every call), canonical result digests compared across three prior global-generator states in one process and across separate processes started with different PYTHONHASHSEED",
+            "Held-on-K-executions over 17 randomised components x generated string-labelled problems x seeds (incl. 0) x prior global states x interpreter hash seeds. Exploration: seeds/problems/hash seeds are sampled.",
+            "digest = sha1 of a canonical repr (floats by repr, mappings sorted by repr); a component that reads a global generator WITHOUT disturbing it and by luck produces the same digest three times would be missed", "§4 C13"),
 }
 
 PENDING_REASON = "check not built yet in this round (design in DESIGN.md §4); not claimed until its monitor exists and is silent on the unchanged tree"
